@@ -583,6 +583,41 @@ static void long_paths()
     vp::bound("long_paths", "a bound parameter address of every length 2..127 (what a slot stores), int / float / toggle parameter, slot values 1 and 0");
 }
 
+// integer parameters with wide ranges (up to 2^24-1, where a float still holds every integer): the slot values 0, 1 and beyond map onto the
+// bounds exactly, everything stays inside [min,max] and monotone
+static void wide_int_ranges()
+{
+    if(vp::ctx().shard != 0) return;
+    struct R { const char *meta; double mn, mx; };
+    static const R RS[] = {
+        {rProp(parameter) rLinear(0, 1000) rDoc("i"), 0, 1000}, {rProp(parameter) rLinear(0, 65535) rDoc("i"), 0, 65535}, {rProp(parameter) rLinear(-32768, 32767) rDoc("i"), -32768, 32767},
+        {rProp(parameter) rLinear(0, 8388607) rDoc("i"), 0, 8388607}, {rProp(parameter) rLinear(0, 8388609) rDoc("i"), 0, 8388609}, {rProp(parameter) rLinear(0, 16777215) rDoc("i"), 0, 16777215},
+        {rProp(parameter) rLinear(-16777215, 0) rDoc("i"), -16777215, 0}, {rProp(parameter) rLinear(1, 12345677) rDoc("i"), 1, 12345677}, {rProp(parameter) rLinear(-9999999, 9999999) rDoc("i"), -9999999, 9999999}};
+    int k = 0;
+    for(const R &r : RS) {
+        std::string cid = "widerange|" + std::to_string(k++);
+        if(!vp::want(cid)) continue;
+        vp::current_case() = cid; vp::state(); vp::eval(); vp::nontrivial(vp::fnv(cid));
+        rtosc::Ports ports({rtosc::Port{"wide::i", r.meta, nullptr, nop_cb}});
+        rtosc::AutomationMgr m(1, 1, 16); m.set_ports(ports);
+        std::vector<Got> got; capture(m, got);
+        m.createBinding(0, "/wide", false);
+        double prev = -1e300; bool ok = true;
+        const std::string cls = std::string("linear-int,range-") + (r.mx - r.mn > 8388608 ? "above-2^23" : "up-to-2^23");
+        for(float v : {-0.5f, 0.f, 1e-7f, 0.25f, 0.5f, 0.75f, 0.9999999f, 1.f, 1.5f}) {
+            got.clear(); m.setSlot(0, v); vp::transition();
+            if(got.size() != 1 || got[0].addr != "/wide" || got[0].types != "i") { vp::violation("message-to-bound-address|setSlot|" + cls, cid, "range [" + fstr(r.mn) + "," + fstr(r.mx) + "], slot value " + fstr(v) + ": " + show_got(got)); ok = false; break; }
+            double num = (double)(int32_t)got[0].u32;
+            if(num < r.mn || num > r.mx) { vp::violation("value-outside-range|setSlot|" + cls, cid, "range [" + fstr(r.mn) + "," + fstr(r.mx) + "], slot value " + fstr(v) + " produced " + fstr(num)); ok = false; break; }
+            if(num < prev) { vp::violation("not-monotone|setSlot|" + cls, cid, "range [" + fstr(r.mn) + "," + fstr(r.mx) + "], slot value " + fstr(v) + " produced " + fstr(num) + " after " + fstr(prev)); ok = false; break; }
+            if((v == 0.f && num != r.mn) || (v == 1.f && num != r.mx)) { vp::violation("default-map|setSlot|" + cls, cid, "range [" + fstr(r.mn) + "," + fstr(r.mx) + "], slot value " + fstr(v) + " produced " + fstr(num)); ok = false; break; }
+            prev = num;
+        }
+        vp::outcome(std::string("wide-range:") + (ok ? "ok" : "BAD")); vp::trace();
+    }
+    vp::bound("wide_int_ranges", "9 integer ranges up to 2^24-1 wide (incl. odd bounds above 2^23, negative, symmetric) x slot values -0.5, 0, 1e-7, .25, .5, .75, 0.9999999, 1, 1.5");
+}
+
 int main(int argc, char **argv)
 {
     vp::init(argc, argv, "C19");
@@ -593,7 +628,8 @@ int main(int argc, char **argv)
                           "probe in every state: setSlot(slot, v) for v in {-0.5,0,0.25,0.5,0.75,1,1.5} on every slot");
     if(!vp::replaying() || vp::ctx().replay.compare(0, 8, "ccsweep|") == 0) controller_sweep();
     if(!vp::replaying() || vp::ctx().replay.compare(0, 9, "longpath|") == 0) long_paths();
-    if(vp::replaying() && (vp::ctx().replay.compare(0, 8, "ccsweep|") == 0 || vp::ctx().replay.compare(0, 9, "longpath|") == 0)) return vp::finish();
+    if(!vp::replaying() || vp::ctx().replay.compare(0, 10, "widerange|") == 0) wide_int_ranges();
+    if(vp::replaying() && (vp::ctx().replay.compare(0, 10, "widerange|") == 0 || vp::ctx().replay.compare(0, 8, "ccsweep|") == 0 || vp::ctx().replay.compare(0, 9, "longpath|") == 0)) return vp::finish();
     if(vp::replaying()) { bfs::Engine<Sys> E; E.run(); return vp::finish(); }
     const std::string out0 = vp::ctx().out;
     const std::string stem = out0.size() > 5 ? out0.substr(0, out0.size() - 5) : std::string("C19");
